@@ -34,3 +34,38 @@ for _nv, _tiers in ((3, ('quick', 'thorough')), (4, ('quick', 'thorough')), (5, 
       what='Polygons::inside + getClosedPolyElem + PolyElem::closePolyElem/_isClosed/addPoint + the real PolyElem::inside: open polygons are closed by repeating vertex 0, closed ones unchanged',
       out='polygons whose end points differ by less than the closing tolerance 1e-5 but are not equal (cannot occur on the integer grid)',
       assumptions=['integer grid coordinates |v| <= 2^20 (exactness bridge as in C20.a)'])
+
+
+# ---------------------------------------------------------------- C20.e db_polygon: selection of data-base samples by a polygon set (harness/C20/dbpoly.cpp)
+for _n, _nd, _tiers in ((3, 2, ('quick', 'thorough')), (3, 3, ('quick', 'thorough')), (5, 2, ('thorough',))):
+    K('C20.e.%d.%dd' % (_n, _nd), property='C20', engine='symex', harness='C20/dbpoly.cpp', entry='k_db_polygon',
+      tus=['src/Polygon/Polygons.cpp', 'src/Db/Db.cpp', 'src/Basic/AStringable.cpp', 'src/Basic/Utilities.cpp'],
+      defines={'all': {'VF_NECH': _n, 'VF_NDIM': _nd}}, tiers=_tiers, cxxflags=['-fno-sanitize=vptr'],
+      bounds={'quick': 'exactly %d samples in a %d-D data base, arbitrary integer-grid coordinates |v| <= 2^20, every mask, every answer of the geometric test per (sample, longitude shift), '
+                       'flag_sel / flag_period / flag_nested arbitrary' % (_n, _nd)},
+      timeout_ms={'quick': 120000, 'thorough': 600000}, validate={'quick': 40, 'thorough': 80}, validate_doubles='int',
+      what='db_polygon (sample loop, coordinate vector, periodic shifts) with the real Db::getCoordinatesPerSampleInPlace: the value written for each sample equals '
+           'Polygons::inside(coordinates of that sample) for active samples, 0 for masked ones when flag_sel, the OR over the shifts -360 / 0 / +360 of the first coordinate when flag_period; '
+           'exactly one write per sample, in the newly created column, which is then named',
+      out='the geometric test itself (C20.a, C20.b, C20.c); column creation, naming and locator setting inside Db / NamingConvention; db_selhull',
+      assumptions=['integer-grid coordinates: x - 360 and x + 360 are exact'],
+      stubs=['Polygons::inside -> arbitrary boolean per (sample, longitude shift); asserts that it receives the coordinates of the sample being processed, the given nesting option and polygon set',
+             'Db object is raw storage + the vptr of harness class PolyDb: PolyDb::getNDim -> VF_NDIM, PolyDb::getCoordinate -> symbolic grid coordinates (both virtual, called by the real Db::getCoordinatesPerSampleInPlace)',
+             'Db::addColumnsByConstant -> returns an arbitrary column identifier in [0, 1000], counts the call; Db::getSampleNumber -> VF_NECH; Db::isActive -> symbolic; Db::setArray -> records (sample, value), checks the column',
+             'ELoc::fromKey -> ELoc::UNKNOWN (default argument of addColumnsByConstant evaluated by db_polygon)',
+             'mes_process -> no-op; NamingConvention::setNamesAndLocators(Db*, int, ...) -> counts the call, checks the column',
+             'Polygons and NamingConvention objects are raw storage, never read'])
+
+
+# ---------------------------------------------------------------- C20.f Polygons::_getHullIndices: convex hull by gift wrapping (harness/C20/hull.cpp)
+for _n, _g, _tiers in ((4, 16, ('quick', 'thorough')), (5, 16, ('thorough',))):
+    K('C20.f.%d' % _n, property='C20', engine='symex', harness='C20/hull.cpp', entry='k_hull',
+      tus=['src/Polygon/Polygons.cpp', 'src/Basic/AStringable.cpp', 'src/Basic/Utilities.cpp'],
+      defines={'all': {'VF_N': _n, 'VF_G': _g}}, tiers=_tiers,
+      bounds={'quick': 'exactly %d points on the integer grid |v| <= %d in general position (no three collinear, hence pairwise distinct)' % (_n, _g)},
+      timeout_ms={'quick': 120000, 'thorough': 1200000}, validate={'quick': 40, 'thorough': 80}, validate_doubles='int',
+      what='Polygons::_getHullIndices: the returned ring is closed, has 3..n distinct valid vertices, every input point lies on the same side of (or on) every ring edge '
+           '(exact integer cross products), the wrapping loop terminates and stays inside its index array',
+      out='collinear triples (the EPSILON6 test discarding the middle point), duplicates, floating rounding of the centroid direction, more points than the bound; the dilation of db_selhull',
+      assumptions=['no three input points are collinear', 'real-arithmetic reading of the centroid (sum / n) used as first wrapping direction; all other products are exact on the grid'],
+      stubs=[])
